@@ -301,11 +301,15 @@ def check_threshold_core(ctx, prefix="C04"):
                 c = const_int(b, v)
                 p = op_place(u)
                 if c == 0 and p is not None and o in ("Eq", "Le"):
-                    # resolve read temporary
+                    # resolve read temporaries and the return value of an inlined helper down to the variable itself
                     l = p["l"]
-                    d = b.single_def(l)
-                    if d and d.kind == "assign" and d.node["rv"]["k"] == "use" and op_place(d.node["rv"]["op"]):
-                        l = op_place(d.node["rv"]["op"])["l"]
+                    for _ in range(12):
+                        d = b.single_def(l)
+                        q = op_place(d.node["rv"]["op"]) if (d and d.kind == "assign" and d.node["rv"]["k"] == "use") else None
+                        if q is not None and not q["p"] and not (1 <= q["l"] <= b.argc):
+                            l = q["l"]
+                        else:
+                            break
                     if b.local_ty(l) in ("u32", "usize", "u64") and l != THR:
                         counter = l
     if counter is None:
